@@ -11,7 +11,10 @@ first.  Entries are settled item results, item futures (pending / fulfilled / re
 * consecutive settled entries are delivered together;
 * a pending or rejected future, or the error entry, met while collecting is *held* and becomes
   the head of the next iteration (the batch collected so far is delivered first);
-* `_END` met while collecting sets `_stopped` (peek-ahead) and is held.
+* `_END` met while collecting sets `_stopped` (peek-ahead) and is held;
+* a *cancelled* item future at the head (an early executed item cancelled because the source
+  failed) makes `batches()` drop everything up to the end / error entry and deliver that
+  (repo fix 0946959); met while collecting it is held like a rejected one.
 -/
 namespace Gql.Async
 
@@ -20,6 +23,7 @@ inductive SQEntry where
   | pendingFut (id : Nat)
   | doneFut (v : Nat)
   | failedFut (id : Nat)
+  | cancelledFut (id : Nat)
   | endMark
   | errorMark
   deriving Repr, DecidableEq
@@ -44,8 +48,17 @@ def sqCollect : List SQEntry → List Nat → List Nat × Option SQEntry × List
   | .errorMark :: r, acc => (acc, some .errorMark, r, false)
   | .pendingFut i :: r, acc => (acc, some (.pendingFut i), r, false)
   | .failedFut i :: r, acc => (acc, some (.failedFut i), r, false)
+  | .cancelledFut i :: r, acc => (acc, some (.cancelledFut i), r, false)
   | .doneFut v :: r, acc => sqCollect r (acc ++ [v])
   | .item v :: r, acc => sqCollect r (acc ++ [v])
+
+/-- `while not (entry is _END or isinstance(entry, _ErrorEntry)): entry = await entries.get()`
+after a cancelled head. -/
+def sqSkip : List SQEntry → SQStep
+  | [] => .park
+  | .endMark :: _ => .finish
+  | .errorMark :: _ => .raise false
+  | _ :: r => sqSkip r
 
 def batchesStep (held : Option SQEntry) (entries : List SQEntry) : SQStep :=
   let headRest : Option (SQEntry × List SQEntry) :=
@@ -58,6 +71,7 @@ def batchesStep (held : Option SQEntry) (entries : List SQEntry) : SQStep :=
   | none => .park
   | some (.pendingFut i, _) => .wait i
   | some (.failedFut _, _) => .raise true
+  | some (.cancelledFut _, r) => sqSkip r
   | some (.endMark, _) => .finish
   | some (.errorMark, _) => .raise false
   | some (.doneFut v, r) =>
@@ -74,11 +88,19 @@ def sqValues : List SQEntry → List Nat
   | .doneFut v :: r => v :: sqValues r
   | _ :: _ => []
 
-/-- How a pending item future settles when the consumer waits for it (scripted: even ids are
-fulfilled with the id as value, odd ids are rejected). -/
+/-- How a pending item future settles when the consumer waits for it (scripted by the id:
+`i % 4 = 1` rejected, `i % 4 = 3` cancelled, otherwise fulfilled with the id as value). -/
 def resolveFut : SQEntry → SQEntry
-  | .pendingFut i => if i % 2 = 0 then .doneFut i else .failedFut i
+  | .pendingFut i =>
+    if i % 4 = 1 then .failedFut i else if i % 4 = 3 then .cancelledFut i else .doneFut i
   | e => e
+
+/-- `_run`: when the producer raises, the still pending item futures are cancelled
+(`_settle_pending`) before the error entry is queued. -/
+def sqAfterProducer (es : List SQEntry) : List SQEntry :=
+  if es.getLast? = some .errorMark then
+    es.map (fun e => match e with | .pendingFut i => .cancelledFut i | e => e)
+  else es
 
 inductive SQOut where
   | park
